@@ -348,13 +348,13 @@ PROPS = {
                                      "{sequential, parallel insertion} x both configurations, the whole stored tree read back after every publish"},
                            {"obligation": "replay/c05#anchors",
                             "bound": "small leaf sets over 16-bit label prefixes: every member and every 1-bit neighbour queried, every ancestor tried as anchor, server proofs verified (both configurations)"}],
-        "scope": "server side, COMPLETENESS of honest proofs (unit azks_proofs): on a hash-consistent stored tree (every non-leaf node stores the parent hash of its children as read - what update_hash establishes) the proof walk get_lcp_node_label_with_membership_proof returns a membership proof that folds, by the verifier's own bottom-up fold, to the stored root value, for every label asked; get_membership_proof and the anchor proof of get_non_membership_proof inherit it; on a tree that also has the trie shape (canonical labels, a child extends its parent with its direction bit, leaves are the 256-bit nodes, only the root may lack a child - assumed like consistency; both assumptions are checked on real executions by a BOUNDED search only) the walk stops at the DEEPEST stored node whose label is a prefix of the 256-bit label asked for, and for a label that is not in the tree get_non_membership_proof returns a proof of the shape verify_nonmembership demands: anchor a prefix of the label, neither reported child a prefix of it, the membership proof for that very node with hash value = parent hash of the two reported children, the label differs from both reported child labels, and whatever get_longest_common_prefix may answer for the two reported child labels is, after the verifier's empty-label -> root normalisation, the anchor (partial correctness; not decided: termination). Verifier side of completeness: verify_nonmembership ACCEPTS every proof with that structure whose anchor proof folds to the root (E_complete) - so, on a consistent and shaped tree, the server's own non-membership proofs verify. Verifier side: verify_membership accepts exactly when the bottom-up Merkle fold of the proof hashes to the root; verify_nonmembership "
+        "scope": "server side, COMPLETENESS of honest proofs (unit azks_proofs): on a hash-consistent stored tree (every non-leaf node stores the parent hash of its children as read - what update_hash establishes) the proof walk get_lcp_node_label_with_membership_proof returns a membership proof that folds, by the verifier's own bottom-up fold, to the stored root value, for every label asked; get_membership_proof and the anchor proof of get_non_membership_proof inherit it; on a tree that also has the trie shape (canonical labels, a child extends its parent with its direction bit, leaves are the 256-bit nodes, only the root may lack a child - assumed like consistency; both assumptions are checked on real executions by a BOUNDED search only) the walk stops at the DEEPEST stored node whose label is a prefix of the 256-bit label asked for, and for a label that is not in the tree get_non_membership_proof returns a proof of the shape verify_nonmembership demands: anchor a prefix of the label, neither reported child a prefix of it, the membership proof for that very node with hash value = parent hash of the two reported children, the label differs from both reported child labels, and whatever get_longest_common_prefix may answer for the two reported child labels is, after the verifier's empty-label -> root normalisation, the anchor (partial correctness; not decided: termination). Verifier side of completeness: verify_nonmembership ACCEPTS every proof with that structure whose anchor proof folds to the root (E_complete) - so, on a consistent and shaped tree, the server's own non-membership proofs verify. Verifier side: verify_membership accepts exactly when the bottom-up Merkle fold of the proof ends at the root label and hashes to the root; verify_nonmembership "
                  "accepts only proofs anchored at the deepest matching node (anchor is a prefix of the label, is the lcp of its two children, no child is a "
                  "prefix of the label, children hash to the anchor, anchor is a member). Meaning (unit trie_lemmas, spec level): for every well-formed full binary compressed trie T, under "
                  "injective parent / label hashes and leaf-interior domain separation (hypotheses, not axioms), mem_ok against T's hash proves a node of T with that label and hash, and "
                  "the verifier's non-membership facts prove that the queried label is NOT a leaf of T (also for an anchor at the root).",
         "trusted": ["T4 configuration hashes are deterministic functions of their byte inputs (uninterpreted); collision resistance enters only as explicit hypotheses of the meaning lemmas, not the contracts",
-                    "the meaning lemmas model tries in which every interior node has two children (a root with a single child - all leaves sharing the first bit - is not modelled); the label of a membership proof WITHOUT sibling proofs is bound by nothing (known finding C05-D15: the meaning lemma says 'for k >= 1, its label')",
+                    "the meaning lemmas model tries in which every interior node has two children (a root with a single child - all leaves sharing the first bit - is not modelled); the meaning lemma speaks of proofs with k >= 1 sibling proofs - for k = 0 the contract itself (mem_ok, since the repair of D15) says the proof's label is the root label",
                     "the label operations both sides rely on (get_bit_at, get_prefix, is_prefix_of, get_longest_common_prefix, get_prefix_ordering, empty_label) are proved equal to their bit-string meaning in unit node_label, which this check runs too"],
         "assumed": [],
     },
